@@ -214,6 +214,11 @@ impl Scenario for C09 {
         }
     }
     fn generate(&self, rng: &mut Rng, _tier: Tier) -> (Cfg, Vec<Act>) {
+        if rng.chance(1, 4000) {
+            // spot run: two filters of 2^32 bits (512 MiB each; valid, the documented maximum is
+            // larger), saturated by invert(): set-bit counts beyond u32::MAX in union / intersect
+            return (Cfg { bits: 1 << 32, hashes: 1, seed: rng.next_u64(), nodes: 2, text: false }, vec![]);
+        }
         let bits = match rng.below(8) {
             0 => 1,
             1 => *rng.pick(&[63u64, 64, 65, 127, 128, 129]),
@@ -285,6 +290,27 @@ impl Scenario for C09 {
     }
 
     fn execute(&self, cfg: &Cfg, acts: &[Act], st: &mut RunStats) -> Result<(), Violation> {
+        if cfg.bits == 1 << 32 {
+            let all = 1u64 << 32;
+            let mk = || BloomFilterBuilder::with_size(all, 1).seed(cfg.seed).build();
+            let (mut f, mut g) = (lib_call("build(2^32 bits)", mk)?, lib_call("build(2^32 bits)", mk)?);
+            lib_call("invert", || {
+                f.invert();
+                g.invert();
+            })?;
+            check!(f.bits_used() == all && !f.is_empty(), "C09.bits_used", "inverted empty filter of 2^32 bits: bits_used {}", f.bits_used());
+            lib_call("union(saturated)", || f.union(&g))?;
+            check!(f.bits_used() == all && !f.is_empty() && f.contains(&7u64), "C09.bits_used", "union of two saturated 2^32-bit filters: bits_used {} is_empty {}", f.bits_used(), f.is_empty());
+            lib_call("intersect(saturated)", || f.intersect(&g))?;
+            check!(f.bits_used() == all && !f.is_empty() && f.contains(&7u64), "C09.bits_used", "intersection of two saturated 2^32-bit filters: bits_used {} is_empty {}", f.bits_used(), f.is_empty());
+            g.reset();
+            g.insert(7u64);
+            lib_call("intersect(one item)", || f.intersect(&g))?;
+            check!(f.bits_used() == 1 && f.contains(&7u64), "C09.bits_used", "saturated AND one-item filter: bits_used {}", f.bits_used());
+            st.probe("filter_of_2_pow_32_bits");
+            st.nontrivial = true;
+            return Ok(());
+        }
         let bits = cfg.bits.clamp(1, 1 << 20);
         let hashes = cfg.hashes.clamp(1, 64);
         let nn = cfg.nodes.clamp(2, 6) as usize;
